@@ -14,7 +14,7 @@ func init() {
 			{Name: "odd-retry-after", Cfg: "weird,nocrash,allowkick", Gating: false, Share: 1},
 		},
 		QuickSecs: 45, ThoroughSecs: 600,
-		Rule: "one case = one generated history of 1-30 enqueued batches interleaved with clock advances (1 ms .. 1000 s), remote fault levels, config-store fault levels and clean restarts " +
+		Rule: "one case = one generated history of 1-30 enqueued batches interleaved with clock advances (7 ms .. 1000 s), remote fault levels, config-store fault levels and clean restarts " +
 			"(CloseAll + StartReplicationQueues), run against the scripted remote under one seeded interleaving, followed by 20 simulated minutes (+ the longest pending wait) on a healthy remote, " +
 			"plus up to 3 process-crash images of the queue directory, each restarted with the real manager; non-trivial = at least one acknowledged batch and one request at the remote; " +
 			"distinct = distinct hash of (operations, remote answers, attempt outcomes, crash cuts, context-switch sequence)",
@@ -34,7 +34,7 @@ func init() {
 			"retry rule judged on the remote's view of each attempt: wait = 0.5 s * 2^(n-1) for n consecutive failures (n counted from 0, so 0.25 s first), 15 min once n > 10; 429 with an integer Retry-After k != 0 waits k s, \"0\" waits 0.5 s, absent/unparsable falls back to the back-off; a failed config-store call counts as a failed attempt; the next attempt must start exactly then (1 ms tolerance on the virtual clock)",
 			"attempts started while CloseAll is running are not judged as retries; a late or missing retry is excused when the failed batch may have been purged by max age",
 			"a queue reopened by StartReplicationQueues is woken by the next local write only; crash images are therefore checked after one new write (the live run reports a queue that stays asleep as stuck-after-restart)",
-			"configuration odd-retry-after (observing): negative, overflowing and \"00\" Retry-After values",
+			"configuration odd-retry-after (observing): negative and overflowing Retry-After values, judged against RFC 9110 (non-negative seconds) instead of the code",
 		},
 	})
 }
